@@ -162,8 +162,21 @@ def r_balance_t(rep, prog):
         direct = False
         for bi, t in b.calls_to(getter):
             arg = T.canon(T.strip_refs(tm.operand(t["args"][0])))
-            if arg[0] == "f" and arg[2] == 0 and arg[1][0] == "as" and arg[1][2] == "Ok" and arg[1][1][0] == "call" and \
-                    arg[1][1][1] == "llfree::atomic::Atom::try_update":
+            # success payload of try_update, possibly through `.ok()` / `?`: projections and wrappers only
+            x = arg
+            through = True
+            while x[0] != "call" or x[1] != "llfree::atomic::Atom::try_update":
+                if x[0] == "f" and x[2] == 0:
+                    x = x[1]
+                elif x[0] == "as" and x[2] in ("Ok", "Some", "Continue"):
+                    x = x[1]
+                elif x[0] == "call" and x[1] in ("core::result::Result::ok", "<core::option::Option as core::ops::try_trait::Try>::branch",
+                                                 "<core::result::Result as core::ops::try_trait::Try>::branch") and x[2]:
+                    x = x[2][0]
+                else:
+                    through = False
+                    break
+            if through and arg[0] != "call":
                 direct = True
         rep.check((ok and fed_by_update) or direct, rule, "%s|returns-old-counter" % fn,
                   "returns free() of the value try_update replaced (the old counter)",
